@@ -66,7 +66,11 @@
 //	bufio.Reader (4096 bytes)           per Decoder       big / reader [new]: every token kind and a 4-byte rune across
 //	                                                      byte 4096; tokens longer than the buffer
 //	Recorder.tokens                     per Decoder       grows with the input, never read
-//	bytes.Buffer of Marshal / ToJSON    per call          reuse [new] (a buffer shared between calls would show)
+//	bytes.Buffer of Marshal / ToJSON    per call          hold [new]: EVERY []byte / string / decoded value / file an op gets
+//	                                                      back is kept (the slice itself) and compared again by the next
+//	                                                      "hold" case, 32 cases later; inputs are scribbled over after the
+//	                                                      call, results after the check; reuse [new]: two to five values /
+//	                                                      documents, Decoders alive together with interleaved calls
 //	keywords, tokTypes                  per process, r/o  reuse [new] (concurrent calls)
 //	files                               on disk           op file (a temporary directory per case)
 //
@@ -116,35 +120,36 @@ type FloatEnt struct {
 }
 
 type Obs struct {
-	Crash   string      `json:"crash,omitempty"`
-	Toks    []Tok       `json:"toks,omitempty"`
-	Errs    []string    `json:"errs,omitempty"`
-	Ok      bool        `json:"ok"`
-	Out     []int       `json:"out,omitempty"`    // output text as runes
-	OutHex  string      `json:"outhex,omitempty"` // output bytes when not valid UTF-8
-	Res     string      `json:"res,omitempty"`    // unmarshal: ok | err | json | more
-	First   string      `json:"first,omitempty"`
-	Items   [][2][]int  `json:"items,omitempty"`   // series: (type name bytes, json runes)
-	Rejects [][2][]int  `json:"rejects,omitempty"` // tseries: entries whose JSON the strict decoding rejects
-	Vals    [][]int     `json:"vals,omitempty"`    // stream: the JSON of the values decoded one after the other
-	Fin     int         `json:"fin,omitempty"`     // stream: 0 More() false, 1 Decode errors, 2 json.Unmarshal error
-	Deep    bool        `json:"deep,omitempty"`    // gort: jsonx round trip DeepEqual encoding/json's round trip
-	Ident   bool        `json:"ident,omitempty"`   // gort: the value came back DeepEqual to the original
-	JsonEq  bool        `json:"jsoneq,omitempty"`  // gort: Got / Want2 are the canonical JSON of the two results
-	Want2   string      `json:"want2,omitempty"`
-	Canon   *bool       `json:"canon,omitempty"` // gort: every float literal json.Marshal wrote is canonical
-	N       int         `json:"n,omitempty"`     // runes: code points checked
-	Pos     [][2]int    `json:"pos,omitempty"`   // rawpos: (line, column) of every token, EOF last
-	EPos    [][2]int    `json:"epos,omitempty"`  // rawpos: positions of the lexer's errors
-	Strs    [][]int     `json:"strs,omitempty"`  // shell tokens (bytes)
-	Floats  []FloatEnt  `json:"floats,omitempty"`
-	Valid   *bool       `json:"valid,omitempty"` // json.Valid(output)
-	Got     string      `json:"got,omitempty"`   // canonical form of the decoded output
-	Tree    interface{} `json:"tree,omitempty"`  // jsonparse: decoded tree
-	NonPr   []int       `json:"nonprint,omitempty"`
-	Text    string      `json:"text,omitempty"` // printable copy of the output for reports
-	Note    string      `json:"note,omitempty"`
-	Steps   []Step      `json:"steps,omitempty"` // script: what every call on the long-lived Decoder returned
+	Crash    string      `json:"crash,omitempty"`
+	Toks     []Tok       `json:"toks,omitempty"`
+	Errs     []string    `json:"errs,omitempty"`
+	Ok       bool        `json:"ok"`
+	Out      []int       `json:"out,omitempty"`    // output text as runes
+	OutHex   string      `json:"outhex,omitempty"` // output bytes when not valid UTF-8
+	Res      string      `json:"res,omitempty"`    // unmarshal: ok | err | json | more
+	First    string      `json:"first,omitempty"`
+	Items    [][2][]int  `json:"items,omitempty"`   // series: (type name bytes, json runes)
+	Rejects  [][2][]int  `json:"rejects,omitempty"` // tseries: entries whose JSON the strict decoding rejects
+	Vals     [][]int     `json:"vals,omitempty"`    // stream: the JSON of the values decoded one after the other
+	Fin      int         `json:"fin,omitempty"`     // stream: 0 More() false, 1 Decode errors, 2 json.Unmarshal error
+	Deep     bool        `json:"deep,omitempty"`    // gort: jsonx round trip DeepEqual encoding/json's round trip
+	Ident    bool        `json:"ident,omitempty"`   // gort: the value came back DeepEqual to the original
+	JsonEq   bool        `json:"jsoneq,omitempty"`  // gort: Got / Want2 are the canonical JSON of the two results
+	Want2    string      `json:"want2,omitempty"`
+	Canon    *bool       `json:"canon,omitempty"` // gort: every float literal json.Marshal wrote is canonical
+	N        int         `json:"n,omitempty"`     // runes: code points checked
+	Pos      [][2]int    `json:"pos,omitempty"`   // rawpos: (line, column) of every token, EOF last
+	EPos     [][2]int    `json:"epos,omitempty"`  // rawpos: positions of the lexer's errors
+	Strs     [][]int     `json:"strs,omitempty"`  // shell tokens (bytes)
+	Floats   []FloatEnt  `json:"floats,omitempty"`
+	Valid    *bool       `json:"valid,omitempty"` // json.Valid(output)
+	Got      string      `json:"got,omitempty"`   // canonical form of the decoded output
+	Tree     interface{} `json:"tree,omitempty"`  // jsonparse: decoded tree
+	NonPr    []int       `json:"nonprint,omitempty"`
+	Text     string      `json:"text,omitempty"` // printable copy of the output for reports
+	Note     string      `json:"note,omitempty"`
+	Steps    []Step      `json:"steps,omitempty"`    // script: what every call on the long-lived Decoder returned
+	Unstable []Unstable  `json:"unstable,omitempty"` // hold: results that changed after they were returned (Fin = how many, N = how many were held)
 }
 
 type Case struct {
@@ -519,7 +524,10 @@ func runCase(c *Case) {
 		}
 	}()
 	in := c.input()
+	defer scribbleInput(in) // the input is the caller's again once the call has returned
 	switch c.Op {
+	case "hold":
+		runHold(o)
 	case "utf8":
 		o.Out = runesOf(in)
 		o.Ok = true
@@ -545,6 +553,7 @@ func runCase(c *Case) {
 				o.Note = "nil output with nil errors"
 			}
 			setOut(o, out)
+			holdBytes("the bytes ToJSON returned", out)
 		} else if out != nil {
 			o.Note = "output together with errors"
 		}
@@ -556,9 +565,12 @@ func runCase(c *Case) {
 		case nil:
 			o.Ok, o.Res = true, "ok"
 			setOut(o, []byte(raw))
-			var v interface{}
-			if err2 := jsonx.Unmarshal(in, &v); err2 != nil {
+			holdBytes("the RawMessage Unmarshal filled", []byte(raw))
+			v := new(interface{})
+			if err2 := jsonx.Unmarshal(in, v); err2 != nil {
 				o.Note = "into interface{}: " + err2.Error()
+			} else {
+				holdValue("the value Unmarshal stored", v)
 			}
 		case *lexing.Error:
 			o.Res, o.First = "err", errName(e)
@@ -584,6 +596,8 @@ func runCase(c *Case) {
 			for _, t := range typed {
 				raw := t.V.(*json.RawMessage)
 				o.Items = append(o.Items, [2][]int{bytesOf([]byte(t.Type)), runesOf([]byte(*raw))})
+				holdBytes("an entry DecodeSeries returned", []byte(*raw))
+				holdString("a type name DecodeSeries returned", t.Type)
 			}
 		} else if typed != nil {
 			o.Note = "result together with errors"
@@ -614,6 +628,7 @@ func runCase(c *Case) {
 			o.Strs = [][]int{}
 			for _, s := range ss {
 				o.Strs = append(o.Strs, bytesOf([]byte(s)))
+				holdString("a token strtoken.Parse returned", s)
 			}
 		} else if ss != nil {
 			o.Note = "result together with errors"
@@ -654,10 +669,10 @@ func runCase(c *Case) {
 			o.Note = "tempdir: " + err.Error()
 			return
 		}
-		defer os.RemoveAll(dir)
 		o.Ok = true
 		var notes []string
 		fn := dir + "/v.jsonx"
+		defer holdFile("the file of this case", fn) // removed by the next hold case
 		if c.goVal != nil || c.PV != nil {
 			want, err1 := jsonx.Marshal(c.goVal)
 			err2 := jsonx.WriteFile(fn, c.goVal)
@@ -669,9 +684,13 @@ func runCase(c *Case) {
 			if err3 := jsonx.Fprint(&sb, c.goVal); (err3 == nil) != (err1 == nil) || (err1 == nil && !bytes.Equal(sb.Bytes(), want)) {
 				notes = append(notes, "Fprint differs from Marshal")
 			}
-			if s, err4 := jsonx.Sprint(c.goVal); (err4 == nil) != (err1 == nil) || (err1 == nil && s != string(want)) {
+			s, err4 := jsonx.Sprint(c.goVal)
+			if (err4 == nil) != (err1 == nil) || (err1 == nil && s != string(want)) {
 				notes = append(notes, "Sprint differs from Marshal")
 			}
+			holdBytes("the bytes Marshal returned", want)
+			holdBytes("the bytes Fprint wrote into the caller's buffer", sb.Bytes())
+			holdString("the string Sprint returned", s)
 			if pb, err5 := capturePrint(c.goVal); (err5 == nil) != (err1 == nil) || (err1 == nil && !bytes.Equal(pb, want)) {
 				notes = append(notes, "Print (standard output) differs from Marshal")
 			}
@@ -682,6 +701,7 @@ func runCase(c *Case) {
 		var r1, r2, r3 json.RawMessage
 		e1 := jsonx.Unmarshal(data, &r1)
 		e2 := jsonx.ReadFile(fn, &r2)
+		holdBytes("the RawMessage ReadFile filled", []byte(r2))
 		if (e1 == nil) != (e2 == nil) || !bytes.Equal(r1, r2) {
 			notes = append(notes, "ReadFile differs from Unmarshal")
 		}
@@ -741,6 +761,7 @@ func runCase(c *Case) {
 		o.Text = printable(bs)
 		o.Out = runesOf(bs)
 		o.NonPr = nonPrintTree(c.goVal)
+		holdBytes("the bytes Marshal returned", bs)
 		// the round trip, read off the implementation only
 		var raw json.RawMessage
 		if err := jsonx.Unmarshal(bs, &raw); err != nil {
@@ -749,6 +770,7 @@ func runCase(c *Case) {
 			return
 		}
 		o.Res = "ok"
+		holdBytes("the RawMessage Unmarshal filled", []byte(raw))
 		got, err := canonJSON([]byte(raw))
 		if err != nil {
 			o.Got = "E(" + err.Error() + ")"
@@ -850,7 +872,7 @@ func main() {
 	oneStream := flag.String("onestream", "replay", "run a single case: its stream")
 	flag.Parse()
 
-	cs := genCases(*mode, *seed, *n)
+	cs := withHolds(genCases(*mode, *seed, *n))
 	if *oneOp != "" {
 		in, _ := hex.DecodeString(*oneIn)
 		cs = []Case{{I: 0, Stream: *oneStream, Op: *oneOp, In: *oneIn, Src: printable(in), Known: seriesKnown}}
@@ -874,6 +896,7 @@ func main() {
 			}
 			curCase.Store(int64(i))
 			curStart.Store(time.Now().UnixNano())
+			cur = &cs[i]
 			runCase(&cs[i])
 			curStart.Store(0)
 			out.Emit(&cs[i])
